@@ -23,8 +23,8 @@
    (core.read_col) takes the labels from each dictionary page in turn, so the codes of earlier row
    groups are finally interpreted with the LAST dictionary.                                       *)
 From Coq Require Import NArith Arith List Bool.
-From Pq Require Import Base.Bytes Impl.KV Dataset.Append Dataset.FS Dataset.Crash
-  Proofs.AppendProofs Proofs.CrashProofs.
+From Pq Require Import Base.Bytes Impl.KV Dataset.Append Dataset.FS Dataset.FsPaths Dataset.Crash Dataset.Ops
+  Proofs.AppendProofs Proofs.CrashProofs Proofs.OpsProofs.
 Import ListNotations.
 
 Theorem C07_simple_prefix : forall file chunks footer' file' loc,
@@ -73,6 +73,33 @@ Theorem C07_multi_existing_untouched : forall refs tr, safe_trace refs tr ->
         match c with Rename a b => ~ In a refs /\ ~ In b refs | Remove p => ~ In p refs | _ => True end).
 Proof. exact multi_existing_untouched. Qed.
 Print Assumptions C07_multi_existing_untouched.
+
+(* fresh names: with off = find_max_part of the referenced paths, every file the append creates
+   (row group i of the append is part.<off+i>.parquet in each of its partition directories) is
+   none of the referenced files and none of the two summary files *)
+Theorem C07_fresh_names : forall refs off rgs, find_max_part refs = Some off -> good_dirs rgs = true ->
+  forall p, In p (new_paths off rgs) -> ~ In p refs /\ p <> md_name /\ p <> cmd_name.
+Proof. exact new_paths_fresh. Qed.
+Print Assumptions C07_fresh_names.
+
+(* rows of a multi-file dataset after one complete append = old rows ++ rows of the new files in
+   the order they were written, and the summary then lists old ++ new references, which is the
+   premise of the next append (so the statement chains over any sequence of appends);
+   dec_file (decoding of one part file) and parse_md are arbitrary *)
+Theorem C07_rows_multi :
+  forall (row : Type) (parse_md : bytes -> option (list path)) (dec_file : bytes -> list row)
+         refs partitioned rgs md cmd tr off s old_rows,
+    refs_of parse_md s = Some refs ->
+    read_dataset (list row) parse_md (rows_decode row dec_file) s = Some old_rows ->
+    find_max_part refs = Some off ->
+    append_trace refs partitioned rgs md cmd = Some tr -> good_dirs rgs = true ->
+    NoDup (new_paths off rgs) ->
+    parse_md (concat md) = Some (refs ++ new_paths off rgs) ->
+    read_dataset (list row) parse_md (rows_decode row dec_file) (run_trace tr s)
+      = Some (old_rows ++ concat (map dec_file (new_contents off rgs)))
+    /\ refs_of parse_md (run_trace tr s) = Some (refs ++ new_paths off rgs).
+Proof. exact append_rows_multi. Qed.
+Print Assumptions C07_rows_multi.
 
 (* non-vacuity: a 3-byte data region with one row group, two appends (1 and 2 row groups);
    footer = the descriptor list written as bytes (off, len pairs), parse = its inverse *)
